@@ -56,6 +56,10 @@ class Ctx:
     def rng(self, *parts: Any):
         from .gen import rng_for
 
+        if not __debug__:
+            # the mirror shard started with python -O takes the same partition of the finite tables as the shard it
+            # mirrors, but its own random cases
+            return rng_for(self.pid, self.seed, self.shard, "python -O", *parts)
         return rng_for(self.pid, self.seed, self.shard, *parts)
 
     def time_left(self) -> float:
@@ -86,6 +90,10 @@ class Ctx:
         """Record a violation witness; capped per mechanism so known findings cannot crowd out fresh ones."""
         if getattr(self, "ambient", None):
             witness.setdefault("ambient", self.ambient)
+        if getattr(self, "ambient_interpreter", None):
+            witness.setdefault("interpreter", self.ambient_interpreter)
+            if not str(witness.get("summary", "")).startswith("under python -O"):
+                witness["summary"] = "under python -O: " + str(witness.get("summary", ""))
         key = None
         if self.classify is not None:
             try:
@@ -128,7 +136,10 @@ def shard_main(argv: list[str]) -> int:
         cov = coverage.start()
         mod = prop_module(pid)
         ctx.classify = getattr(mod, "classify", None)
-        if ctx.nshards > 1 and ctx.shard == ctx.nshards - 1:
+        if not __debug__:
+            ctx.observe("ambient:python-O-mirror-shard")
+            ctx.ambient_interpreter = "python -O"
+        elif ctx.nshards > 1 and ctx.shard == ctx.nshards - 1:
             # ambient process configuration: the last shard of every check runs the way a developer's process does,
             # with DEBUG logging effective for every logger (no output: a null handler)
             import logging
@@ -190,6 +201,16 @@ def run_check(pid: str, tier: str, seed: int) -> int:
              str(nshards), str(budget), out],
             cwd=VERIF, env=child_env, stdout=log, stderr=subprocess.STDOUT)
         procs.append((i, p, out, log))
+    if os.environ.get("RV_NO_O_MIRROR") != "1":
+        # one more shard, started with python -O (assert statements compiled away, __debug__ false): it mirrors shard
+        # (seed mod nshards) - same slice of every finite enumeration, other random cases
+        j = seed % nshards
+        out = os.path.join(work, "shardO.json")
+        log = open(os.path.join(work, "shardO.log"), "w")
+        p = subprocess.Popen(
+            [PY, "-O", "-X", "faulthandler", "-m", "rv.shard", pid, tier, str(seed), str(j), str(nshards), str(budget), out],
+            cwd=VERIF, env=dict(child_env, RV_NO_COVERAGE="1"), stdout=log, stderr=subprocess.STDOUT)
+        procs.append(("O", p, out, log))
     results = []
     inconclusive = []
     for i, p, out, log in procs:
